@@ -25,26 +25,30 @@ Proof.
     (destruct (Z.eq_dec l a) as [->|NE]; [unfold blank; rewrite E; discriminate | apply (IH st (a + 1)); lia]).
 Qed.
 
-Lemma blank_tabs st st' l : tabs_eq st st' -> blank st' l -> blank st l.
+Lemma blank_tabs st st' l : tabs_eq st st' -> (blank st' l <-> blank st l).
 Proof.
-  intros (A1 & A2 & A3 & A4 & _) H. unfold blank, is_empty, line_start in *. rewrite A2, A3, A4 in H. exact H.
+  intros (A1 & A2 & A3 & A4 & _). unfold blank, is_empty, line_start. rewrite A2, A3, A4. tauto.
 Qed.
 
 Inductive cseg (B : Z -> Prop) : Z -> Z -> list token -> Prop :=
 | cseg_nil lo hi : lo <= hi -> (forall l, lo <= l < hi -> B l) -> cseg B lo hi []
-| cseg_cons lo hi a b seg rest : lo <= a -> a < b -> (forall l, lo <= l < a -> B l) -> Forall (map_in a b) seg ->
+| cseg_cons lo hi a b seg rest : lo <= a -> a < b -> (forall l, lo <= l < a -> B l) -> ~ B a -> Forall (map_in a b) seg ->
     cseg B b hi rest -> cseg B lo hi (seg ++ rest).
 
 Lemma cseg_lo (B : Z -> Prop) lo lo' hi s : lo' <= lo -> (forall l, lo' <= l < lo -> B l) -> cseg B lo hi s -> cseg B lo' hi s.
 Proof.
-  intros L G H. destruct H as [lo hi H0 H1 | lo hi a b seg rest H1 H2 H3 H4 H5].
+  intros L G H. destruct H as [lo hi H0 H1 | lo hi a b seg rest H1 H2 H3 HN H4 H5].
   - apply cseg_nil; [lia|]. intros l Hl. destruct (Z_lt_ge_dec l lo); [apply G; lia | apply H1; lia].
-  - apply (cseg_cons B lo' hi a b); [lia | exact H2 | | exact H4 | exact H5].
+  - apply (cseg_cons B lo' hi a b); [lia | exact H2 | | exact HN | exact H4 | exact H5].
     intros l Hl. destruct (Z_lt_ge_dec l lo); [apply G; lia | apply H3; lia].
 Qed.
 
-Lemma cseg_impl (B B' : Z -> Prop) lo hi s : (forall l, B l -> B' l) -> cseg B lo hi s -> cseg B' lo hi s.
-Proof. intros I H. induction H; [apply cseg_nil; auto | eapply cseg_cons; eauto]. Qed.
+Lemma cseg_impl (B B' : Z -> Prop) lo hi s : (forall l, B l <-> B' l) -> cseg B lo hi s -> cseg B' lo hi s.
+Proof.
+  intros I H. induction H as [lo hi H0 H1 | lo hi a b seg rest H1 H2 H3 HN H4 H5 IH].
+  - apply cseg_nil; [exact H0 | intros l Hl; apply I, H1, Hl].
+  - apply (cseg_cons B' lo hi a b); [exact H1 | exact H2 | intros l Hl; apply I, H3, Hl | intros X; apply HN, I, X | exact H4 | exact IH].
+Qed.
 
 (* covered means ordered too *)
 Lemma cseg_oseg (B : Z -> Prop) lo hi s : cseg B lo hi s -> oseg lo hi s.
@@ -53,7 +57,7 @@ Proof. induction 1; [apply oseg_nil; assumption | eapply oseg_cons; eassumption]
 (* every line of the range is blank or inside the line range of a segment *)
 Lemma cseg_covers (B : Z -> Prop) lo hi s : cseg B lo hi s -> forall l, lo <= l < hi -> B l \/ exists a b, a <= l < b /\ lo <= a /\ b <= hi.
 Proof.
-  induction 1 as [lo hi H0 H1 | lo hi a b seg rest H1 H2 H3 H4 H5 IH]; intros l Hl; [left; apply H1; exact Hl|].
+  induction 1 as [lo hi H0 H1 | lo hi a b seg rest H1 H2 H3 HN H4 H5 IH]; intros l Hl; [left; apply H1; exact Hl|].
   assert (BH : b <= hi) by (clear - H5; induction H5; lia).
   destruct (Z_lt_ge_dec l a); [left; apply H3; lia|].
   destruct (Z_lt_ge_dec l b); [right; exists a, b; lia|].
@@ -99,6 +103,8 @@ Proof.
   pose proof (HSN line1 sc Es) as SC0. assert (X0 : (sc <? 0) = false) by lia. rewrite X0 in H.
   change (b_level (st_line st line1)) with (b_level st) in H.
   assert (X1 : (c_maxNesting cfg <=? b_level st) = false) by lia. rewrite X1 in H.
+  assert (NB1 : ~ blank st line1).
+  { unfold blank. intros X. apply X. unfold line1. apply skip_empty_nonempty; [lia|]. fold line1. lia. }
   assert (NEl : nonempty (st_line st line1) line1).
   { apply (nonempty_tabs st); [exact T1|]. apply is_empty_false_nonempty. unfold line1. apply skip_empty_nonempty; [lia|]. fold line1. lia. }
   assert (P1 : pre2 N (st_line st line1) line1 el).
@@ -127,10 +133,10 @@ Proof.
     apply (IH (st_line st3 (b_line st2 + 1)) (b_line st2 + 1) el true (tabs_eq_RI _ _ _ T4 R) (tabs_eq_TI _ _ T4 HT) (tabs_eq_CI _ _ T4 HC)) in H.
     + destruct H as (seg & ET & OS & EN). cbn [b_tokens st_line set] in ET. change (b_tokens st3) with (b_tokens st2) in ET.
       exists (sg ++ seg). split; [rewrite ET, ES, app_assoc; reflexivity|]. split; [|exact EN].
-      apply (cseg_cons _ line _ line1 (b_line st2)); [exact E1 | lia | exact GAP | exact FS|].
+      apply (cseg_cons _ line _ line1 (b_line st2)); [exact E1 | lia | exact GAP | exact NB1 | exact FS|].
       apply (cseg_lo _ (b_line st2 + 1)); [lia | |].
-      * intros l Hl. assert (l = b_line st2) by lia. subst l. apply (blank_tabs st st3); [exact T3 | exact EB].
-      * eapply cseg_impl; [|exact OS]. intros l Hl. apply (blank_tabs st _ l T4 Hl).
+      * intros l Hl. assert (l = b_line st2) by lia. subst l. apply (blank_tabs st st3 _ T3). exact EB.
+      * eapply cseg_impl; [|exact OS]. intros l. apply (blank_tabs st _ l T4).
     + lia.
     + rewrite (tabs_eq_lineMax _ _ T4). lia.
     + rewrite (tabs_eq_lineMax _ _ T4). lia.
@@ -141,8 +147,8 @@ Proof.
   - apply (IH st3 (b_line st2) el _ R3 HT3 HC3) in H.
     + destruct H as (seg & ET & OS & EN). change (b_tokens st3) with (b_tokens st2) in ET.
       exists (sg ++ seg). split; [rewrite ET, ES, app_assoc; reflexivity|]. split; [|exact EN].
-      apply (cseg_cons _ line _ line1 (b_line st2)); [exact E1 | lia | exact GAP | exact FS|].
-      eapply cseg_impl; [|exact OS]. intros l Hl. apply (blank_tabs st _ l T3 Hl).
+      apply (cseg_cons _ line _ line1 (b_line st2)); [exact E1 | lia | exact GAP | exact NB1 | exact FS|].
+      eapply cseg_impl; [|exact OS]. intros l. apply (blank_tabs st _ l T3).
     + lia.
     + rewrite (tabs_eq_lineMax _ _ T3). lia.
     + rewrite (tabs_eq_lineMax _ _ T3). lia.
